@@ -425,6 +425,8 @@ extern "C" ssize_t read(int fd, void *buf, size_t count)
                 errno = EIO;
                 return -1;
               }
+            else if (f->b > 0 && count > static_cast<size_t>(f->b))
+              count = static_cast<size_t>(f->b); // the reads before the bad block deliver at most b bytes each
           if (Fault *f = find_fault(F_EINTR, of.path))
             if (of.nread == static_cast<unsigned long>(f->a < 1 ? 1 : f->a))
               {
